@@ -429,7 +429,7 @@ def check_c10(tier, seed, log=print):
                 ws = {w for w in ws if P.is_valid_utf8(list(w))}
         elif 'pattern' in m:
             p = bytes.fromhex(m['pattern']).decode('utf-8')
-            reqs.append('P 1 1 %s' % hexs(p.encode('utf-8')))
+            reqs.append('P %d 1 %s' % (1 if m.get('unicode', True) else 0, hexs(p.encode('utf-8'))))
             keys.append(None)
             RR = random.Random(seed * 7 + i)
             ws = set()
@@ -786,6 +786,28 @@ def check_c17(tier, seed, log=print):
                 after = open(outp, newline='').read() if os.path.exists(outp) else None
                 seqs.append((i, op, state, p.returncode, after, expected))
                 state = after
+        # every definition of the families once through the real binary (standard output): what the tool prints is the
+        # enum as strip_attributes returns it (compared structurally with the input above) followed by the implementation
+        # the derive generates - also for the definitions the sequences below do not reach (generic headers, field types
+        # with lifetimes, type parameters with concrete types)
+        nstdout = 0
+        for i, c in enumerate(cases):
+            cap = caps[i]
+            if cap is None or cap.strip is None or cap.codetext is None:
+                continue
+            inp = os.path.join(wdir, 'sin%d.rs' % i)
+            open(inp, 'w').write(c['src'])
+            p = subprocess.run([cli, inp], capture_output=True, text=True)
+            cli_runs += 1
+            nstdout += 1
+            expected = bytes.fromhex(cap.strip).decode('utf-8') + cap.codetext
+            if p.returncode != 0 or p.stdout.splitlines() != expected.splitlines():
+                k_ = next((j for j, (a_, b_) in enumerate(zip(p.stdout, expected)) if a_ != b_), min(len(p.stdout), len(expected)))
+                run.violation('cli', dict(definition=c['src'], op='print', exit=p.returncode, printed_around_first_difference=p.stdout[max(0, k_ - 80):k_ + 80],
+                                          expected_around_first_difference=expected[max(0, k_ - 80):k_ + 80],
+                                          what='what logos-cli prints is not (the enum with the logos attributes and the Logos derive removed) followed by (the implementation the derive generates)'),
+                              key='cliprint|%s' % c['src'])
+        run.coverage['cli_printed_outputs_compared'] = nstdout
         # directed: every class of file state relative to the expected output x (write | check), then a check.  The file is handled
         # as bytes: it may not be valid UTF-8 (one byte of the expected output replaced by 0xff; a U+FFFD of the output replaced by
         # a lone 0xff, which a lossy decoder maps back to U+FFFD)
